@@ -261,6 +261,9 @@ def check(ctx):
             if isinstance(n, ast.Assign) and isinstance(n.targets[0], ast.Subscript) and isinstance(n.targets[0].value, ast.Name) \
                     and isinstance(n.value, (ast.List, ast.ListComp)):
                 pylists.add(n.targets[0].value.id)
+            if isinstance(n, ast.Assign) and isinstance(n.targets[0], ast.Name) and isinstance(n.value, ast.DictComp) \
+                    and isinstance(n.value.value, (ast.List, ast.ListComp)):
+                pylists.add(n.targets[0].id)
         for f, c in calls_in(fn):
             if not (isinstance(c.func, (ast.Attribute, ast.Name)) and c.args):
                 continue
